@@ -213,7 +213,7 @@ async function op_query_table(req) {
     let out_names = [];
     let res = {};
     try {
-        await rbql.query_table(req.query, input, out, warnings, join, req.input_header || null, req.join_header || null, out_names, true, req.user_init || '');
+        await rbql.query_table(req.query, input, out, warnings, join, req.input_header || null, req.join_header || null, out_names, req.normalize === false ? false : true, req.user_init || '');
         res.out = out.map(r => r.map(project));
         res.warnings = warnings;
         res.header = out_names;
